@@ -448,7 +448,7 @@ func checkCloexecSites(c *Check, r *e1Result) {
 		ok := start != nil && mark != nil && before(mark, start)
 		if ok {
 			// only skipped when there are no descriptors
-			ec := extraConds(controlDeps(he), mark.Block())
+			ec := extraCondsEE(controlDeps(he), mark.Block())
 			for _, a := range ec {
 				if !strings.Contains(a, "len(") || !strings.Contains(a, "Fds") {
 					ok = false
